@@ -22,7 +22,9 @@
       [stale_pairs_known], one pair on the real codemod set) plus the per-pair semantic contract [create_free] (a rewrite
       of K1 never creates a match of K2's rule in a file that had none), which the harness measures.  _partial: the
       contract and H_stores_reparse remain premises.
-    Not proved here: that H_stores_reparse follows from the writers' code (DESIGN's C09_store_mutation_equiv). *)
+    H_stores_reparse is discharged from the writers' models at the end of this file: fully for requirements.txt
+    (C09_stores_reparse_requirements_txt, C09_batch_eq_chain_manifest), for setup.cfg under two configparser-level premises;
+    pyproject.toml / setup.py stay differential-only. *)
 From CM Require Import Base.Dict Model.Run Spec.RunSpec Proofs.RunFacts Proofs.RunSteps Proofs.C09Facts Proofs.C09Overlap Proofs.RunTables Generated.Tables.
 
 Theorem C09_batch_eq_chain_conditional :
